@@ -132,10 +132,50 @@ func TestC09Pairs(t *testing.T) {
 }
 
 // TestC09 draws larger random expressions (with offsets and @ on the selectors).
+// drawMergePair draws a query in which a narrower selector of a metric (a candidate for
+// the merge-selects rewrite) carries offset / @ modifiers and sits in a drawn position,
+// next to the broader selector of the same metric.
+func drawMergePair(t *rapid.T, c *core.Case) string {
+	broad := rapid.SampledFrom([]string{"m", `m{a!="9"}`, `m{b=~".*"}`}).Draw(t, "broad")
+	extra := rapid.SampledFrom([]string{`a="1"`, `b!="2"`, `a=~"1|2"`, `c=""`, `a="1",b="2"`}).Draw(t, "extra")
+	narrow := "m{" + extra + "}"
+	if i := strings.Index(broad, "{"); i >= 0 {
+		narrow = broad[:len(broad)-1] + "," + extra + "}"
+	}
+	span := c.End - c.Start
+	at := func(ms int64) string { return fmt.Sprintf(" @ %d.%03d", ms/1000, ms%1000) }
+	mod := rapid.SampledFrom([]string{
+		" offset 1m", " offset -30s", " offset 10m", " offset -7m",
+		at(c.Start - 900000), at(c.Start - 1000), at(c.Start + span/2), at(c.End + 600000), at(c.Start-600000) + " offset 1m",
+		" @ end()", " @ start()", " @ end() offset 2m", " offset 5m" + at(c.Start),
+	}).Draw(t, "mod")
+	pos := rapid.SampledFrom([]string{"%s", "abs(%s)", "-%s", "timestamp(%s)", "sum(%s)", "sum by (a) (%s)", "max without (b) (%s)",
+		"RANGE:rate", "RANGE:count_over_time", "RANGE:last_over_time", "scalar(sum(%s))", "clamp_min(%s, 1)"}).Draw(t, "pos")
+	var left string
+	if strings.HasPrefix(pos, "RANGE:") {
+		left = pos[6:] + "(" + narrow + "[" + rapid.SampledFrom([]string{"1m", "2m", "45s"}).Draw(t, "rng") + "]" + mod + ")"
+	} else {
+		left = strings.Replace(pos, "%s", narrow+mod, 1)
+	}
+	right := rapid.SampledFrom([]string{"%s", "sum(%s)", "sum by (a) (%s)", "count(%s)", "abs(%s)"}).Draw(t, "rpos")
+	right = strings.Replace(right, "%s", broad, 1)
+	glue := rapid.SampledFrom([]string{" + ", " - on (a) ", " / on () ", " * ignoring (b) group_left () ", " > bool "}).Draw(t, "glue")
+	if rapid.Bool().Draw(t, "swap") {
+		return right + glue + left
+	}
+	return left + glue + right
+}
+
 func TestC09(t *testing.T) {
 	runProp(t, "C09", func(t *rapid.T) *core.Case {
 		p := gen.Profile{MaxDepth: 3, Metrics: []string{"m", "m", "n"}, Nameless: true}
 		c := drawGeneral(t, p, gen.WindowOpts{}, gen.DataOpts{Specials: true, MaxSeries: 12, Twins: true})
+		if rapid.IntRange(0, 3).Draw(t, "mergepair") == 0 {
+			c.Query = drawMergePair(t, c)
+		}
+		// a storage that returns only what the select hints ask for (the rewrites must
+		// not change the result on such a storage either)
+		c.Trim = rapid.IntRange(0, 2).Draw(t, "trim") == 0
 		return c
 	})
 }
